@@ -10,14 +10,20 @@ package c64
 // hook, build tag verif; this file contains comments only). They mirror the
 // contracts of internal/asm/f64; see that file and /verif/DESIGN.md.
 
+// noclash: the destination and a source either do not overlap or start at the
+// same cell (element k of the destination is then element k of the source, read
+// before it is written).
+//@ spec noclash(d []complex64, s []complex64) bool = d.rid != s.rid || d.off == s.off || d.off+len(d) <= s.off || s.off+len(s) <= d.off
 //@ spec strided(s []complex64, i0 int, n int, inc int) bool = n <= 0 || (0 <= i0 && i0 < len(s) && 0 <= i0+(n-1)*inc && i0+(n-1)*inc < len(s))
 
 //@ func Add props: C07(safety) C08
 //@ requires len(dst) >= len(s)
 //@ writes dst[k] for k in 0..len(s)
+//@ ensures noclash(dst, s) ==> forall(k, 0, len(s), same(dst[k], old(dst[k]) + old(s[k])))
 
 //@ func AddConst props: C07(safety) C08
 //@ writes x[k] for k in 0..len(x)
+//@ ensures forall(k, 0, len(x), same(x[k], old(x[k]) + alpha))
 
 //@ func CumSum props: C07(safety) C08
 //@ requires len(dst) >= len(s)
@@ -32,11 +38,13 @@ package c64
 //@ func Div props: C07(safety) C08
 //@ requires len(dst) >= len(s)
 //@ writes dst[k] for k in 0..len(s)
+//@ ensures noclash(dst, s) ==> forall(k, 0, len(s), same(dst[k], old(dst[k]) / old(s[k])))
 
 //@ func DivTo props: C07(safety) C08
 //@ requires len(dst) >= len(s) && len(t) >= len(s)
 //@ writes dst[k] for k in 0..len(s)
 //@ ensures sameSlice(result, dst)
+//@ ensures noclash(dst, s) && noclash(dst, t) ==> forall(k, 0, len(s), same(dst[k], old(s[k]) / old(t[k])))
 
 //@ func L2DistanceUnitary props: C07(safety) C08
 //@ requires len(y) >= len(x)
@@ -51,27 +59,33 @@ package c64
 //@ func AxpyUnitary props: C01(frame) C07(safety) C08
 //@ requires len(y) >= len(x)
 //@ writes y[k] for k in 0..len(x)
+//@ ensures noclash(y, x) ==> forall(k, 0, len(x), same(y[k], old(y[k]) + alpha*old(x[k])))
 
 //@ func AxpyUnitaryTo props: C01(frame) C07(safety) C08
 //@ requires len(y) >= len(x) && len(dst) >= len(x)
 //@ writes dst[k] for k in 0..len(x)
+//@ ensures noclash(dst, x) && noclash(dst, y) ==> forall(k, 0, len(x), same(dst[k], alpha*old(x[k]) + old(y[k])))
 
 //@ func AxpyInc props: C01(frame) C07(safety) C08
 //@ requires int(n) >= 0 && strided(x, int(ix), int(n), int(incX)) && strided(y, int(iy), int(n), int(incY))
 //@ writes y[int(iy)+k*int(incY)] for k in 0..int(n)
+//@ ensures disjoint(x, y) && int(incY) != 0 ==> forall(k, 0, int(n), same(y[int(iy)+k*int(incY)], old(y[int(iy)+k*int(incY)]) + alpha*old(x[int(ix)+k*int(incX)])))
 
 //@ func AxpyIncTo props: C01(frame) C07(safety) C08
 //@ requires int(n) >= 0 && strided(x, int(ix), int(n), int(incX)) && strided(y, int(iy), int(n), int(incY))
 //@ requires strided(dst, int(idst), int(n), int(incDst))
 //@ writes dst[int(idst)+k*int(incDst)] for k in 0..int(n)
+//@ ensures disjoint(dst, x) && disjoint(dst, y) && int(incDst) != 0 ==> forall(k, 0, int(n), same(dst[int(idst)+k*int(incDst)], alpha*old(x[int(ix)+k*int(incX)]) + old(y[int(iy)+k*int(incY)])))
 
 //@ func ScalUnitaryTo props: C01(frame) C07(safety) C08
 //@ requires len(dst) >= len(x)
 //@ writes dst[k] for k in 0..len(x)
+//@ ensures noclash(dst, x) ==> forall(k, 0, len(x), same(dst[k], alpha * old(x[k])))
 
 //@ func ScalIncTo props: C01(frame) C07(safety) C08
 //@ requires int(n) >= 0 && strided(x, 0, int(n), int(incX)) && strided(dst, 0, int(n), int(incDst))
 //@ writes dst[k*int(incDst)] for k in 0..int(n)
+//@ ensures disjoint(dst, x) && int(incDst) != 0 ==> forall(k, 0, int(n), same(dst[k*int(incDst)], alpha * old(x[k*int(incX)])))
 
 //@ func DotUnitary DotcUnitary DotuUnitary props: C01(frame) C07(safety) C08
 //@ requires len(y) >= len(x)
@@ -81,12 +95,17 @@ package c64
 //@ requires int(n) >= 0 && strided(x, int(ix), int(n), int(incX)) && strided(y, int(iy), int(n), int(incY))
 //@ writes nothing
 
-//@ func ScalUnitary SscalUnitary props: C01(frame) C07(safety) C08
+//@ func ScalUnitary props: C01(frame) C07(safety) C08
+//@ writes x[k] for k in 0..len(x)
+//@ ensures forall(k, 0, len(x), same(x[k], old(x[k]) * alpha))
+
+//@ func SscalUnitary props: C01(frame) C07(safety) C08
 //@ writes x[k] for k in 0..len(x)
 
 //@ func ScalInc props: C01(frame) C07(safety) C08
 //@ requires int(n) >= 0 && strided(x, 0, int(n), int(incX))
 //@ writes x[k*int(incX)] for k in 0..int(n)
+//@ ensures int(incX) != 0 ==> forall(k, 0, int(n), same(x[k*int(incX)], old(x[k*int(incX)]) * alpha))
 
 //@ func SscalInc props: C01(frame) C07(safety) C08
 //@ requires int(n) >= 0 && strided(x, 0, int(n), int(inc))
